@@ -86,6 +86,9 @@ pub enum GridCase {
     LessThanF { n: Fb, v: Fb },
     EveryN { n: u32, v: u32 },
     Optimum { best: Option<Fb>, opt: Fb, eps: Fb },
+    /// two OptimumReached conditions with different tolerances, both initialised on the same state (a loop condition
+    /// plus a branch, two branches ...): each decides with its own tolerance
+    OptimumPair { best: Fb, opt: Fb, eps1: Fb, eps2: Fb },
 }
 
 pub struct GridCheck;
@@ -170,6 +173,26 @@ fn grid_oracle(c: &GridCase, cl: &mut u64) -> Result<(), Failure> {
             st.insert(Iterations(v.wrapping_add(1)));
             let got = eval_cond(cond.as_ref(), &p, &mut st);
             ensure_that!(got == Ok(want), "C10 EveryN truth value", "EveryN({n}) over Evaluations on value {v} = {got:?}, expected {want}");
+        }
+        GridCase::OptimumPair { best, opt, eps1, eps2 } => {
+            let (b, opt, e1, e2) = (best.f(), opt.f(), eps1.f(), eps2.f());
+            let mut p = problem();
+            p.optimum = opt;
+            let (Ok(c1), Ok(c2)) = (OptimumReached::new::<RealP>(e1), OptimumReached::new::<RealP>(e2)) else { return Ok(()) };
+            let mut bi = BestIndividual::<RealP>::new();
+            bi.update(&Individual::new(vec![0.0], SingleObjective::try_from(b).unwrap()));
+            st.insert(bi);
+            for c in [&c1, &c2] {
+                c.init(&p, &mut st).map_err(|e| Failure::new("C10 OptimumReached init", format!("{e}")))?;
+            }
+            let (w1, w2) = (b <= opt + e1, b <= opt + e2);
+            if w1 != w2 {
+                *cl |= 8;
+            }
+            for (k, (c, e, w)) in [(&c1, e1, w1), (&c2, e2, w2), (&c1, e1, w1)].into_iter().enumerate() {
+                let got = eval_cond(c.as_ref(), &p, &mut st);
+                ensure_that!(got == Ok(w), "C10 OptimumReached truth value", "two OptimumReached conditions (epsilon {e1:?} and {e2:?}) initialised on one state, best {b:?}, optimum {opt:?}: evaluation {k} of the one with epsilon {e:?} = {got:?}, expected {w}");
+            }
         }
         GridCase::Optimum { best, opt, eps } => {
             let (opt, eps) = (opt.f(), eps.f());
@@ -260,6 +283,13 @@ fn grid_cases() -> Vec<GridCase> {
     for opt in [0.0, -5.0, 3.25, 1e6] {
         for eps in [0.0, 1e-9, 0.1, 1.0, -0.1, -1e-12] {
             out.push(GridCase::Optimum { best: None, opt: Fb::of(opt), eps: Fb::of(eps) });
+            if eps >= 0.0 {
+                for eps2 in [0.0, 0.5, 2.0] {
+                    for b in [opt + (eps + eps2) / 2.0, opt + eps, opt + eps2, opt] {
+                        out.push(GridCase::OptimumPair { best: Fb::of(b), opt: Fb::of(opt), eps1: Fb::of(eps), eps2: Fb::of(eps2) });
+                    }
+                }
+            }
             let edge = opt + eps;
             for b in [edge, next_up(edge), next_down(edge), opt, opt - 1.0, opt + 2.0 * eps.abs() + 1.0, opt - eps, f64::INFINITY, next_up(opt), next_down(opt)] {
                 out.push(GridCase::Optimum { best: Some(Fb::of(b)), opt: Fb::of(opt), eps: Fb::of(eps) });
@@ -277,6 +307,7 @@ fn grid_strategy() -> impl Strategy<Value = GridCase> {
         (1u32..5000, any::<u32>()).prop_map(|(n, v)| GridCase::EveryN { n, v }),
         (1u32..50, 0u32..40).prop_map(|(n, k)| GridCase::EveryN { n, v: n.saturating_mul(k) }),
         (proptest::option::of(-1e3f64..1e3), -1e3f64..1e3, 0f64..10.0).prop_map(|(b, o, e)| GridCase::Optimum { best: b.map(Fb::of), opt: Fb::of(o), eps: Fb::of(e) }),
+        (-1e3f64..1e3, 0f64..10.0, 0f64..10.0, 0.0f64..=1.0).prop_map(|(o, e1, e2, t)| GridCase::OptimumPair { best: Fb::of(o + e1.min(e2) + t * (e1 - e2).abs()), opt: Fb::of(o), eps1: Fb::of(e1), eps2: Fb::of(e2) }),
         (-1e3f64..1e3, 0f64..10.0, -2i32..3).prop_map(|(o, e, d)| {
             let edge = o + e;
             let b = match d { -2 => next_down(next_down(edge)), -1 => next_down(edge), 0 => edge, 1 => next_up(edge), _ => next_up(next_up(edge)) };
@@ -488,6 +519,10 @@ pub struct ChangeCase {
     pub values: Vec<i64>,
     /// run over SingleObjective values instead of i64
     pub objective: bool,
+    /// evaluations (indices into `values`, modulo its length) at which the observed state is missing: the evaluation
+    /// fails and must leave the remembered baseline as it was
+    #[serde(default)]
+    pub missing: Vec<u8>,
 }
 
 pub struct ChangeCheck;
@@ -498,7 +533,7 @@ impl Check for ChangeCheck {
         "C10/change-of".into()
     }
     fn classes(&self) -> &'static [&'static str] {
-        &["value returns to an earlier value", "repeat of the same value", "delta checker", "sub-threshold drift accumulates", "objective-valued"]
+        &["value returns to an earlier value", "repeat of the same value", "delta checker", "sub-threshold drift accumulates", "objective-valued", "an evaluation with the source state missing"]
     }
     fn oracle(&self, c: &ChangeCase) -> Outcome {
         let mut cl = 0;
@@ -533,7 +568,18 @@ fn change_oracle(c: &ChangeCase, cl: &mut u64) -> Result<(), Failure> {
     let mut prev: Option<i64> = None;
     let mut got_all = Vec::new();
     let mut want_all = Vec::new();
-    for v in &c.values {
+    for (k, v) in c.values.iter().enumerate() {
+        if c.missing.iter().any(|m| *m as usize % c.values.len() == k) {
+            *cl |= 32;
+            if c.objective {
+                let _ = st.remove::<ObjState>();
+            } else {
+                let _ = st.remove::<T0>();
+            }
+            let got = eval_cond(cond.as_ref(), &p, &mut st);
+            ensure_that!(got.is_err(), "C10 ChangeOf on a missing source state", "ChangeOf over the history {:?} (missing at {:?}): evaluation #{} with the observed state missing returned {got:?}, expected an error", c.values, c.missing, k + 1);
+            continue;
+        }
         if c.objective {
             st.insert(ObjState(SingleObjective::try_from(*v as f64).unwrap()));
         } else {
@@ -897,12 +943,18 @@ pub fn run_all(ctx: &mut Ctx, replay: Option<&Path>) {
                 c /= 3;
             }
             for th in [None, Some(2), Some(3)] {
-                hs.push(ChangeCase { threshold: th, values: v.clone(), objective: code % 2 == 1 });
+                hs.push(ChangeCase { threshold: th, values: v.clone(), objective: code % 2 == 1, missing: Vec::new() });
+                if len >= 2 && len <= 5 {
+                    // the same history with one evaluation (every position but the first) failing for lack of the source
+                    for m in 1..len {
+                        hs.push(ChangeCase { threshold: th, values: v.clone(), objective: code % 2 == 1, missing: vec![m as u8] });
+                    }
+                }
             }
         }
     }
-    ctx.exhaustive(&ch, "all value histories up to the length bound over {1,2,4} x {PartialEq, Delta(2), Delta(3)}, alternating i64 / SingleObjective", hs.into_iter());
-    ctx.random(&ch, (proptest::option::of(0i64..6), proptest::collection::vec(-4i64..8, 0..13), any::<bool>()).prop_map(|(threshold, values, objective)| ChangeCase { threshold, values, objective }), ctx.tier.pick(40_000, 400_000));
+    ctx.exhaustive(&ch, "all value histories up to the length bound over {1,2,4} x {PartialEq, Delta(2), Delta(3)}, alternating i64 / SingleObjective; histories of length 2-5 also with one evaluation failing because the source state is missing", hs.into_iter());
+    ctx.random(&ch, (proptest::option::of(0i64..6), proptest::collection::vec(-4i64..8, 0..13), any::<bool>(), prop_oneof![2 => Just(Vec::new()), 1 => proptest::collection::vec(any::<u8>(), 1..3)]).prop_map(|(threshold, values, objective, missing)| ChangeCase { missing, threshold, values, objective }), ctx.tier.pick(40_000, 400_000));
     let n = ctx.tier.pick(4000, 20_000);
     let seeds = ctx.tier.pick(20, 100);
     let base = ctx.derive_seed("chance");
